@@ -49,7 +49,7 @@ Definition gas_eqb (a b : gastable) : bool :=
 Definition ledger_eqb (a b : ledger) : bool :=
   pstore_eqb (l_state a) (l_state b) && pstore_eqb (l_block a) (l_block b) && pstore_eqb (l_event a) (l_event b) &&
   bytes_eqb (l_merkle a) (l_merkle b) && (l_height a =? l_height b) && bytes_eqb (l_hash a) (l_hash b) &&
-  gas_eqb (l_gas a) (l_gas b).
+  gas_eqb (l_gas a) (l_gas b) && list_eqb kvs_eqb (l_pending a) (l_pending b).
 
 Definition rec_ok (r : rec) (ob : list obs) : bool :=
   match r, ob with
@@ -67,7 +67,7 @@ Fixpoint prog_of (ops : list (sop * rec)) (acc : bool) : prog evm_res :=
   end.
 
 Definition mk_ledger (st : list kv) (height : N) (gas : gastable) : ledger :=
-  mkLedger (mkPStore st None) (mkPStore [([1], [1])] None) (mkPStore [([2], [2])] (Some [])) [3] height [4] gas.
+  mkLedger (mkPStore st None) (mkPStore [([1], [1])] None) (mkPStore [([2], [2])] (Some [])) [3] height [4] gas [[([5; 1], [1])]].
 
 Definition outcome_failed {R} (o : outcome R) : bool := match o with Failed _ => true | Done _ => false end.
 
